@@ -169,6 +169,16 @@ func vhC04Pipeline() {
 			own = false
 		}
 	}
+	// more calls afterwards (after a connection died with requests in flight,
+	// the next connection's responses belong to the new calls only)
+	for i := 0; i < vChoose("callsAfterwards", 3); i++ {
+		var req Request
+		var resp Response
+		req.SetRequestURI("http://a.co/n" + c07Digits(i))
+		if err := pc.DoTimeout(&req, &resp, time.Second); err == nil && string(resp.Body()) != "/n"+c07Digits(i) {
+			own = false
+		}
+	}
 	vAssert("each-successful-pipelined-call-returns-its-own-response", own)
 	if die == 0 {
 		all := true
